@@ -1,2 +1,113 @@
+"""C03 -- solver.smoothing binds the fields, coefficients and widths of ONE problem to the kernel parameters and always relaxes.
+
+The four kernels are proved (c03, c03_lines) to relax the system `A_spec(eta, zeta, h) e = s` given by THEIR parameters
+(ex, ey, ez, sx, sy, sz, eta_x, eta_y, eta_z, zeta, hx, hy, hz, nu).  Here: for every requested line direction code and grid,
+  * every kernel call receives efield.fx/fy/fz, sfield.fx/fy/fz, model.eta_x/eta_y/eta_z/zeta, model.grid.h[0..2], nu -- matched
+    against the parameter NAMES read from the kernel definitions in the current source;
+  * the point smoother runs iff the current code (contract of _current_lr_dir, proved under C05) is 0, and the x/y/z line smoother
+    runs iff the code contains that direction (1:x 2:y 3:z 4:yz 5:xz 6:xy 7:xyz); so at least one kernel runs;
+  * lines never run along a direction with only two cells (composition with the C05 contract of _current_lr_dir);
+  * smoothing itself writes nothing (only the kernels write, and only ex, ey, ez: their frames).
+"""
+import z3
+
+from pyvc import cx, ob, intake
+from .cxutil import clause, canary, coverage
+
+PROP = 'C03'
+KERNELS = {'core.gauss_seidel': None, 'core.gauss_seidel_x': 0, 'core.gauss_seidel_y': 1, 'core.gauss_seidel_z': 2}
+LR_DIRS = {0: (0, 0, 0), 1: (1, 0, 0), 2: (0, 1, 0), 3: (0, 0, 1), 4: (0, 1, 1), 5: (1, 0, 1), 6: (1, 1, 0), 7: (1, 1, 1)}
+ROLES = ['ex', 'ey', 'ez', 'sx', 'sy', 'sz', 'eta_x', 'eta_y', 'eta_z', 'zeta', 'hx', 'hy', 'hz', 'nu']
+
+
+def run_smoothing():
+    c = z3.Int('c_lr_dir')
+    lr = z3.Int('lr_dir')
+    nu = z3.Int('nu')
+
+    def mk(ctx):
+        tok = {r: cx.NDArr(cx.Store(r)) for r in ROLES[:13]}
+        ef = cx.Obj('Field', dict(fx=tok['ex'], fy=tok['ey'], fz=tok['ez']), mod='fields')
+        sf = cx.Obj('Field', dict(fx=tok['sx'], fy=tok['sy'], fz=tok['sz']), mod='fields')
+        grid = cx.Obj('TensorMesh', dict(h=[tok['hx'], tok['hy'], tok['hz']]), mod='meshes')
+        model = cx.Obj('VolumeModel', dict(eta_x=tok['eta_x'], eta_y=tok['eta_y'], eta_z=tok['eta_z'], zeta=tok['zeta'], grid=grid), mod='models')
+        for o in (ef, sf, grid, model):
+            o.fields['__strict__'] = True
+        return [model, sf, ef, nu, lr], {}, dict(tok=tok, grid=grid)
+
+    def cur(it, args, kw, node):
+        it.ctx.assume(z3.And(c >= 0, c <= 7))
+        return c
+
+    def kernel(name):
+        def h(it, args, kw, node):
+            return None
+        return h
+    summs = {'solver._current_lr_dir': cur}
+    summs.update({k: kernel(k) for k in KERNELS})
+    return cx.run_function('solver.smoothing', mk, pc0=[lr >= 0, lr <= 7], summaries=summs, opts={}), c, lr, nu
+
+
+def task_dispatch():
+    col = ob.Collector(PROP, 'solver.smoothing')
+    col.function('solver.smoothing')
+    res, c, lr, nu = run_smoothing()
+    pre = [lr >= 0, lr <= 7, c >= 0, c <= 7]
+    # parameter names of the kernels, from the current source
+    for k in KERNELS:
+        fn = col.function(k)
+        names = [a.arg for a in fn.args.args]
+        col.concrete(f'kernel_parameter_names/{k}', names == ROLES, dict(got=names, want=ROLES))
+    coverage(col, 'paths_cover_all_direction_codes', res, pre)
+    clause(col, 'returns_normally', res, lambda r: r.outcome == 'return' and r.value is None, pre)
+
+    def kcalls(r):
+        return [e for e in r.events if e['kind'] == 'call' and e['name'] in KERNELS]
+
+    def binding(r):
+        tok = r.state['tok']
+        ok = True
+        for e in kcalls(r):
+            a = e['args']
+            ok = ok and len(a) == 14 and not e['kwargs']
+            for role, v in zip(ROLES[:13], a[:13]):
+                ok = ok and isinstance(v, cx.NDArr) and v.store is tok[role].store and v.view == 'whole'
+            ok = ok and cx.is_sym(a[13]) and a[13].eq(nu)
+        return ok
+    clause(col, 'every_kernel_call_gets_fields_coefficients_widths_of_this_problem_in_parameter_order', res, binding, pre)
+
+    def which(r):
+        names = [e['name'] for e in kcalls(r)]
+        g = [z3.BoolVal(names.count('core.gauss_seidel') == 1) == (c == 0)]
+        for k, d in KERNELS.items():
+            if d is None:
+                continue
+            has = z3.Or(*[c == code for code, dirs in LR_DIRS.items() if dirs[d]])
+            g.append(z3.BoolVal(names.count(k) == 1) == has)
+            g.append(z3.BoolVal(names.count(k) <= 1))
+        g.append(z3.BoolVal(len(names) >= 1))
+        return z3.And(*g)
+    clause(col, 'point_smoother_iff_code_0__line_smoother_iff_direction_in_code__at_least_one_runs', res, which, pre, sample=True)
+    canary(col, 'canary/x_lines_only_for_code_1', res,
+           lambda r: z3.BoolVal([e['name'] for e in kcalls(r)].count('core.gauss_seidel_x') == 1) == (c == 1), pre)
+
+    def lr_query(r):
+        q = [e for e in r.events if e['kind'] == 'call' and e['name'] == 'solver._current_lr_dir']
+        return len(q) == 1 and cx.is_sym(q[0]['args'][0]) and q[0]['args'][0].eq(lr) and q[0]['args'][1] is r.state['grid']
+    clause(col, 'current_direction_is_asked_for_the_requested_code_on_this_grid', res, lr_query, pre)
+    clause(col, 'smoothing_itself_writes_nothing', res, lambda r: not r.mutations(), pre)
+    # composition with the C05 contract of _current_lr_dir: d in code(c) => d requested and more than two cells along d
+    m = z3.Ints('m0 m1 m2')
+
+    def table(v, tab):
+        return [z3.Or(*[v == k for k, d in tab.items() if d[i]]) for i in range(3)]
+    dc, dl = table(c, LR_DIRS), table(lr, LR_DIRS)
+    contract = [dc[i] == z3.And(dl[i], m[i] != 2) for i in range(3)]
+    col.lia('composition/no_line_relaxation_along_a_two_cell_direction', pre + contract,
+            z3.And(*[z3.Implies(m[i] == 2, z3.Not(dc[i])) for i in range(3)]))
+    col.lia('composition/requested_code_without_two_cell_directions_is_kept', pre + contract + [x != 2 for x in m], c == lr)
+    return col.pack()
+
+
 def tasks(tier):
-    return []
+    return [('contracts.c03_dispatch', 'task_dispatch', {})]
